@@ -55,33 +55,41 @@ Theorem C18_exit_restores_with :
 Proof. exact exit_restores_with. Qed.
 
 Theorem C18_exit_restores_application :
-  forall c cls pos kw blk s, st (run_op c cls (OApp pos kw blk) s) = s.
+  forall c cls pos kw blk intr s, st (run_op c cls (OApp pos kw blk intr) s) = s.
 Proof. exact exit_restores_app. Qed.
+
+(* ... also when an exit callback raises, be it an Exception or a BaseException (the pop is in `finally`) *)
+Theorem C18_exit_restores_callback_raises :
+  forall c cls kw blk s, st (run_op c cls (OWithCb kw blk) s) = s.
+Proof. exact exit_restores_withcb. Qed.
 
 (* Leaving an application block: the block's own events, then exactly one stop event -- send_signal("stop")
    resolved while the block's context (fr) is still the innermost -- then the pop. *)
 Theorem C18_application_exit :
-  forall c cls pos kw blk s sg e a,
+  forall c cls pos kw blk (intr : bool) s sg e a,
     find_sig cls "application" = Some sg -> resolve sg s pos kw = Some e ->
     sassoc "app_id" (e_args e) = Some a ->
     exists evb fr rb,
       run_ops c cls blk (s ++ [mkdict [("app_id", a)]]) = (evb, s ++ [fr], rb)
       /\ (no_update_here blk -> fr = mkdict [("app_id", a)])
-      /\ run_op c cls (OApp pos kw blk) s
-         = (evb ++ [EvStop (call FUEL c cls "send_signal" (s ++ [fr]) [stop_signal] [])], s,
-            rb || has_err (call FUEL c cls "send_signal" (s ++ [fr]) [stop_signal] [])).
+      /\ let out0 := call FUEL c cls "send_signal" (s ++ [fr]) [stop_signal] [] in
+         let out := if intr then interrupted out0 else out0 in
+         run_op c cls (OApp pos kw blk intr) s = (evb ++ [EvStop out], s, rb || has_err out).
 Proof. exact application_exit. Qed.
 
 (* ... and that stop event is one signal command, broadcast, carrying the stop signal and the block's
-   application id (a: the id application() resolved), whether the block ended normally or by exception (rb). *)
+   application id (a: the id application() resolved), whether the block ended normally or by exception (rb),
+   and also when the connection raises KeyboardInterrupt / SystemExit while sending it (intr): the frame is
+   popped all the same. *)
 Theorem C18_application_stop :
-  forall c pos kw blk s sg e a z,
+  forall c pos kw blk (intr : bool) s sg e a z,
     find_sig "MC" "application" = Some sg -> resolve sg s pos kw = Some e ->
     sassoc "app_id" (e_args e) = Some a -> as_int a = Some z -> no_update_here blk ->
     exists evb rb k,
       run_ops c "MC" blk (s ++ [mkdict [("app_id", a)]]) = (evb, s ++ [mkdict [("app_id", a)]], rb)
       /\ chip_connection_ok c (VInt 255) (VInt 255) k
-      /\ run_op c "MC" (OApp pos kw blk) s = (evb ++ [EvStop ([stop_wire k a], None)], s, rb).
+      /\ run_op c "MC" (OApp pos kw blk intr) s
+         = (evb ++ [EvStop ([stop_wire k a], if intr then Some IntrErr else None)], s, rb || intr).
 Proof. exact application_stop. Qed.
 
 (* ---- connection_choice.  MachineController: the connection of the board holding the target when the
@@ -147,7 +155,7 @@ Example C18_application_instance :
     find_sig "MC" "application" = Some sg /\ resolve sg ex_stack [VInt 17] [] = Some e
     /\ sassoc "app_id" (e_args e) = Some (VInt 17) /\ as_int (VInt 17) = Some 17
     /\ no_update_here ex_block
-    /\ run_op ex_ctl "MC" (OApp [VInt 17] [] ex_block) ex_stack
+    /\ run_op ex_ctl "MC" (OApp [VInt 17] [] ex_block false) ex_stack
        = ([EvCall "sdram_alloc" ([MkWire 1 0 (VInt 1) (VInt 2) (VInt 0) (VInt SCP_alloc_free)
                                          [(0%nat, 0, 255, Alloc_alloc_sdram)] [(FByte, 0%nat, 8, VInt 17)]], None);
            EvCall "sdram_alloc" ([MkWire 1 0 (VInt 3) (VInt 2) (VInt 0) (VInt SCP_alloc_free)
@@ -181,3 +189,14 @@ Example C18_nested_core_instance :
        [[("app_id", VInt 66)]; [("x", VInt 1); ("y", VInt 2); ("p", VInt 3)]] [VInt 5] []
   = ([MkWire 0 1 (VInt 1) (VInt 2) (VInt 3) VNone [] []; MkWire 0 1 (VInt 1) (VInt 2) (VInt 3) VNone [] []], None).
 Proof. exact ex_nested_core_instance. Qed.
+
+Example C18_interrupt_instance :
+  run_ops ex_ctl "MC"
+    [ OTry [ OApp [VInt 17] [] [ OWithCb [("app_id", VInt 30)] [ OCall "sdram_free" [VInt 4; VInt 1; VInt 2] [] false ] ] true ];
+      OCall "send_signal" [stop_signal] [] false ] [[("app_id", VInt 66)]]
+  = ([EvCall "sdram_free" ([MkWire 1 0 (VInt 1) (VInt 2) (VInt 0) (VInt SCP_alloc_free)
+                                   [(0%nat, 0, 255, Alloc_free_sdram_by_ptr)] []], None);
+      EvStop ([stop_wire 3 (VInt 17)], Some IntrErr);
+      EvCall "send_signal" ([stop_wire 3 (VInt 66)], None)],
+     [[("app_id", VInt 66)]], false).
+Proof. exact ex_interrupt_instance. Qed.
